@@ -223,6 +223,33 @@ def St.appendDependence (s : St) (lhs x : Nat) (m : Int) : Except Exc St :=
       else .ok { s with tape := s.tape.dropLast ++ [appendDep last x m] }
     | none => .error .wrong_gradient     -- only the null statement (index -1) is on the stack
 
+/-! ### array forms `y.add_derivative_dependence(x, dy_dx, n, multiplier_stride)` / `append_…`
+(Active.h, ActiveReference.h, ActiveConstReference.h): `n` right-hand sides given as (gradient index, multiplier) pairs — the
+multiplier of term `j` is read at `multiplier[j*multiplier_stride]`, the stride does not enter the meaning — of which the
+zero multipliers push no operation. -/
+
+/-- the operations the loop `for i<n: if (mult != 0) push_rhs(mult, rhs[i].gradient_index())` pushes -/
+def depOps (ts : List (Nat × Int)) : List (Int × Nat) := (ts.filter fun t => t.2 ≠ 0).map fun t => (t.2, t.1)
+
+/-- the statement the array form of `add_derivative_dependence` describes: `d[lhs] = Σ mⱼ·d[xⱼ]` -/
+def addDepN (lhs : Nat) (ts : List (Nat × Int)) : Stmt Int := ⟨lhs, depOps ts⟩
+
+/-- the statement after the array form of `append_derivative_dependence` -/
+def appendDepN (st : Stmt Int) (ts : List (Nat × Int)) : Stmt Int := { st with ops := st.ops ++ depOps ts }
+
+/-- array form of `add_derivative_dependence`: the pushes, then `push_lhs` -/
+def St.addDependenceN (s : St) (lhs : Nat) (ts : List (Nat × Int)) : St :=
+  if !s.isRecording then s else (s.pushRhs (depOps ts)).pushLhs lhs
+
+/-- array form of `append_derivative_dependence`: the left-hand side is tested once, before anything is pushed -/
+def St.appendDependenceN (s : St) (lhs : Nat) (ts : List (Nat × Int)) : Except Exc St :=
+  if !s.isRecording then .ok s
+  else match s.tape.getLast? with
+    | some last =>
+      if last.lhs ≠ lhs then .error .wrong_gradient
+      else .ok { s with tape := s.tape.dropLast ++ [appendDepN last ts] }
+    | none => .error .wrong_gradient
+
 /-- several `set_gradient` calls in a row -/
 def seedAll (s : St) (seeds : List (Nat × Int)) : St := seeds.foldl (fun s p => (s.seed p.1 p.2).1) s
 
